@@ -215,7 +215,16 @@ VP_HARNESS(h_c20_build)
         std::vector<uint8_t>* vd = new std::vector<uint8_t>(vend, vend + BV);
         cm[run] = new CaptureModulePayload;
         cm[run]->setUptime(up);
-        cm[run]->setData(std::string_view(str[0], BS), std::string_view(str[1], BS ? BS - 1 : 0), std::string_view(str[2], 0), std::string_view(str[3], BS), *vd);
+        // the caller's strings live in exact-size heap objects allocated per run: what lies behind a string is not an input
+        char* hs[4];
+        const unsigned hl[4] = {BS, BS ? BS - 1 : 0, 0, BS};
+        for (int k = 0; k < 4; ++k)
+        {
+            hs[k] = static_cast<char*>(operator new(hl[k] ? hl[k] : 1));
+            for (unsigned i = 0; i < hl[k]; ++i)
+                hs[k][i] = str[k][i];
+        }
+        cm[run]->setData(std::string_view(hs[0], hl[0]), std::string_view(hs[1], hl[1]), std::string_view(hs[2], hl[2]), std::string_view(hs[3], hl[3]), *vd);
         ip[run] = new InterfacePayload;
         ip[run]->setInterfaceId(static_cast<uint32_t>(up));
         ip[run]->setData(ids, BS, vend, BV);
